@@ -2,8 +2,10 @@
 C15 - model of the CRL file cache (`verifier/crl/crl.go`: `FileCache.Get`, `Set`, `fileName`,
 `checkExpiry`, `fileCacheContent`; `internal/file.WriteFile` as a completed, sequential write).
 
-* the cache directory is a map  path -> stored bytes  (`FS`); only completed operations are
-  modelled (interleavings and temp-file transients are property C14);
+* the cache directory is a map  path -> stored bytes  (`FS`); operations are atomic: a history
+  with overlapping calls is judged through its sequential reading (a Set takes effect at its
+  rename - the harness's concurrency stage emits that reading); crashes and temp-file
+  transients are property C14;
 * `fileName url = hex (sha256 url)`: SHA-256 is a parameter `dg : U → List Nat` (a digest is a
   list of bytes), hex encoding is concrete (Go `encoding/hex`);
 * the entry codec (`encoding/json` + base64 of `fileCacheContent`, `x509.ParseRevocationList`)
